@@ -3,6 +3,8 @@ open SteelVerif.C02
 #print axioms inline_preserves
 #print axioms inline_prog_preserves
 #print axioms inline_twice_preserves
+#print axioms fold_preserves
+#print axioms inline_then_fold_preserves
 #print axioms tier_transparent
 #print axioms tier_hypothesis_needed
 #print axioms inline_history_partial
